@@ -37,3 +37,8 @@ OBLIGATIONS = krow_reader_obligations() + [
         bounds="search/search_first/search_all/match/text_recursive on <p>t0<span>t1</span>ab</p>, pattern 'a'",
         encodes=["src/odfdo/element.py:Element.search,search_first,search_all,match,text_recursive,inner_text"], stubs=["/verif/shadow/lxml (symdom)"]),
 ]
+
+# thorough tier: the same reader obligations with repeats up to 3 and positions up to 6 (VERIF_DEPTH=1)
+from props.common import kget_obligations as _kg  # noqa: E402
+
+OBLIGATIONS += [o for o in _kg(['kget_values_small', 'kget_rows_small']) if o.name.endswith("@d1")]
